@@ -257,6 +257,12 @@ def _update_status(h, g):
     h.assume(h.eq(h.attr(old, "ac_number"), E.number))
     new = ac_record(h, g, "new_")
     h.setattr(E.ac, "_ac_error_info", "E1")
+    seen = {}
+    if h.symbolic:
+        def at_first_suspension(e):
+            if e[0] in ("suspend", "for-all-members", "send") and not seen:
+                seen["stored"] = h.attr(E.ac, "_ac_status")
+        E.w.site_checks.append(at_first_suspension)
     r = h.method(E.ac, "update_ac_status", new)
     if not h.branch(h.eq(h.attr(new, "ac_number"), E.number)):
         h.oblige("a record for another AC is refused with ValueError", r.raised("ValueError"))
@@ -269,6 +275,8 @@ def _update_status(h, g):
         h.oblige("an identical record sends nothing and notifies nobody", And(len(E.sock.sent) == 0, no_notification(h, E.w)))
         h.cover("unchanged")
         return
+    if h.symbolic:
+        h.oblige("the new record is in place before anything is sent or any subscriber runs", seen.get("stored") is new)
     h.oblige("a changed record notifies all subscribers (general and AC-state) once with the AC id",
              notified_only(h, E.w, E.both(), [E.number]))
     if h.branch(h.attr(new, "error_code") != 0):
